@@ -25,7 +25,7 @@ NOT_COVERED = ["the statement itself is a relation between two whole runs (2-saf
                "the scheduled times, once, in increasing order (C02), (iii) the inputs of a step are a function of the predecessors' outputs up "
                "to that time, independent of arrival order (C03: get_output_for / TimedInputBuffer.get_input / prune contracts), for "
                "lazy_stepping on and off alike (wait_for_dependencies is verified with lazy_stepping symbolic)"]
-LEVEL_TEXT = ("BOUNDED exploration of the statement (differential runs of the real scheduler: 9 small scenarios x lazy_stepping x cache x debug x "
+LEVEL_TEXT = ("BOUNDED exploration of the statement (differential runs of the real scheduler: 17 small scenarios x lazy_stepping x cache x debug x "
               "start order x interleavings, compared by per-simulator (time, inputs) sequences) plus proved function-level clauses that carry the "
               "configuration independence: prune_dataflow_cache keeps every entry a pull can still return (cache on == cache off for pulled "
               "data), get_output_for / TimedInputBuffer.get_input are functions of the stored data only, wait_for_dependencies guarantees the "
